@@ -116,8 +116,8 @@ type c19Want struct {
 }
 
 func wantV(o tengo.Object) c19Want { return c19Want{kind: wValue, val: o} }
-func wantE(err error) c19Want     { return c19Want{kind: wErrValue, errText: c19ErrCore(err)} }
-func wantTotal() c19Want          { return c19Want{kind: wTotal} }
+func wantE(err error) c19Want      { return c19Want{kind: wErrValue, errText: c19ErrCore(err)} }
+func wantTotal() c19Want           { return c19Want{kind: wTotal} }
 
 // c19ErrCore is the part of a Go error message that does not depend on which
 // wrapper of the same operation was called (Atoi vs ParseInt).
